@@ -407,6 +407,15 @@ fn render(items: &[GenItem], rng: &mut Rng) -> String {
     s
 }
 
+/// equality of two items as values (spans aside)
+fn same_item(a: &NestedMeta, b: &NestedMeta) -> bool {
+    match (a, b) {
+        (NestedMeta::Meta(x), NestedMeta::Meta(y)) => x == y,
+        (NestedMeta::Lit(x), NestedMeta::Lit(y)) => x == y,
+        _ => false,
+    }
+}
+
 fn kind_of(n: &NestedMeta) -> &'static str {
     match n {
         NestedMeta::Lit(_) => "lit",
@@ -573,6 +582,11 @@ fn splitting_case(rng: &mut Rng, c: &mut Collector) {
                         let p2 = quote!(#(#again),*);
                         if tok::canon(p2.clone()) != tok::canon(printed.clone()) || again.len() != parsed.len() {
                             fail(c, "print-parse-not-identity", format!("`{printed}` re-parses and prints as `{p2}`"), &text);
+                        } else if !again.iter().zip(parsed.iter()).all(|(a, b)| same_item(a, b)) {
+                            // the identity is one of lists, not only of their tokens: the same items, of the
+                            // same kinds, holding the same values
+                            let k = again.iter().zip(parsed.iter()).position(|(a, b)| !same_item(a, b)).unwrap_or(0);
+                            fail(c, "print-parse-not-identity", format!("`{text}`: printed and parsed again, item {k} is {:?}, it was {:?}", again[k], parsed[k]).chars().take(600).collect(), &text);
                         }
                     }
                 }
